@@ -147,6 +147,8 @@ def custom_classes():
 
 
 SCALARS = [0.0, 1.0, -1.0, 2.0, 0.5, -3.0, 4.0]
+PROX_LEAVES = ['prox_l1', 'prox_l1_g', 'prox_cc_l1', 'prox_cc_l1_g', 'prox_l2sq', 'prox_l2sq_g', 'prox_cc_l2sq',
+               'prox_cc_l2sq_g', 'box_both', 'box_lower', 'box_upper', 'box_none']
 
 
 def rvec(rng, n):
@@ -197,7 +199,7 @@ def gen_leaf(rng, reg, dom, ran, big):
         choices += ['zero_diff']
     if dom == ran:
         choices += ['scaling', 'identity', 'zero_same', 'constant', 'multiply', 'abs', 'square', 'realpart',
-                    'scaling', 'multiply', 'constant']
+                    'scaling', 'multiply', 'constant'] + PROX_LEAVES
     else:
         choices += ['constant2']
     c = rng.choice(choices)
@@ -233,6 +235,31 @@ def gen_leaf(rng, reg, dom, ran, big):
         # ConstantOperator stores range.element(constant) = the same object
         assert op.constant is el
         return Node(op, op_term('ConstantOperator', dom, ran, vecs=[i]), dom, ran, c)
+    if c in PROX_LEAVES:
+        P = odl.solvers.nonsmooth.proximal_operators
+        sig = rng.choice([0.5, 1.0, 2.0, 4.0])
+        lam = rng.choice([0.5, 1.0, 2.0])
+        vecs = []
+        kw = {}
+        if c.endswith('_g'):
+            el = D.element(rvec(rng, n))
+            vecs = [reg.add(el, dom)]
+            kw['g'] = el
+        if c.startswith('box'):
+            lo, hi = -1.0, 2.0
+            args = {'box_both': dict(lower=lo, upper=hi), 'box_lower': dict(lower=lo), 'box_upper': dict(upper=hi),
+                    'box_none': dict()}[c]
+            op = P.proximal_box_constraint(D, **args)(sig)
+            cls = {'box_both': 'ProxBox_both', 'box_lower': 'ProxBox_lower', 'box_upper': 'ProxBox_upper',
+                   'box_none': 'ProxBox_none'}[c]
+            return Node(op, op_term(cls, dom, ran, pars=[lo, hi]), dom, ran, c)
+        fac, cls = {'prox_l1': ('proximal_l1', 'ProximalL1'), 'prox_cc_l1': ('proximal_convex_conj_l1', 'ProximalConvexConjL1'),
+                    'prox_l2sq': ('proximal_l2_squared', 'ProximalL2Squared'),
+                    'prox_cc_l2sq': ('proximal_convex_conj_l2_squared', 'ProximalConvexConjL2Squared')}[
+                        c[:-2] if c.endswith('_g') else c]
+        op = getattr(P, fac)(D, lam=lam, **kw)(sig)
+        return Node(op, op_term(cls + ('_g' if c.endswith('_g') else ''), dom, ran, pars=[sig, lam], vecs=vecs),
+                    dom, ran, (c, sig, lam))
     if c == 'scaling':
         s = rng.choice(SCALARS)
         return Node(odl.ScalingOperator(D, s), op_term('ScalingOperator', dom, ran, pars=[s]), dom, ran, c)
